@@ -23,6 +23,7 @@ import (
 //   form    := (define NAME expr) | (scope expr) | (verdict expr) | (case NAME expr)
 //            | (contract NAME expr)            ; extra named obligations (bit-vector reading, about the program)
 //            | (math NAME expr)                ; lemma about the definitions in the integer reading (see vsEnv)
+//            | (lemma NAME expr)               ; bit-vector lemma about (any W) values, proved without the program state
 //   expr    := NAME | literal | (op expr*) | (let ((NAME expr)*) expr) | (if c a b)
 //   literal := #xHH.. | #bBB.. | (bv VALUE WIDTH) | true | false
 //   frame   := len                                   ; initial length, 64 bit
@@ -110,6 +111,7 @@ type FuncSpec struct {
 	Contracts []NamedTerm
 	Cases     []NamedTerm // optional case split of the verdict obligation (each: scope and case => ret == verdict)
 	Defines   []NamedTerm // in file order (for models)
+	Lemmas    []MathLemma // (lemma NAME expr): bit-vector lemmas about (any W) values, independent of the program state
 	Math      []MathLemma // (math NAME expr): lemmas over mathematical integers about the definitions of this file
 }
 
@@ -267,16 +269,6 @@ func (v *vsEnv) mapOf(x *sx) (*MapInfo, error) {
 		return nil, v.errf(x, "no map %q with key/value types in %s", x.atom, v.e.mod.CFile)
 	}
 	return mi, nil
-}
-
-// mapFuns declares the entry-state (version 0) ghost functions of a map.
-func (v *vsEnv) mapFuns(mi *MapInfo) (string, string) {
-	pres := fmt.Sprintf("map_%s_v0_present", smt.Sanitize(mi.Name))
-	vals := fmt.Sprintf("map_%s_v0_value", smt.Sanitize(mi.Name))
-	ks := smt.BV(int(8 * mi.KeySize))
-	v.e.tm.declFun(pres, []string{ks}, smt.Bool)
-	v.e.tm.declFun(vals, []string{ks}, arrSort)
-	return pres, vals
 }
 
 func (v *vsEnv) mapKey(mi *MapInfo, x *sx) (smt.Term, error) {
@@ -477,8 +469,7 @@ func (v *vsEnv) evalBV(x *sx) (vsVal, error) {
 		if err != nil {
 			return vsVal{}, err
 		}
-		pres, _ := v.mapFuns(mi)
-		return mkv(smt.App(smt.Bool, pres, k), 0), nil
+		return mkv(v.e.mapInstance(mi, 0, k).present, 0), nil
 	case "map-byte", "map-be", "map-le":
 		idx := 0
 		n := int64(1)
@@ -509,11 +500,10 @@ func (v *vsEnv) evalBV(x *sx) (vsVal, error) {
 		if o < 0 || o+n > mi.ValueSize {
 			return vsVal{}, v.errf(x, "bytes %d..%d outside the %d-byte value of map %s", o, o+n, mi.ValueSize, mi.Name)
 		}
-		_, vals := v.mapFuns(mi)
-		arr := tm.named("spec_"+mi.Name, smt.App(arrSort, vals, k))
+		inst := v.e.mapInstance(mi, 0, k)
 		var parts []smt.Term
 		for i := int64(0); i < n; i++ {
-			b := smt.Select(arr, lit(uint64(o+i), 64))
+			b := inst.bytes[o+i]
 			if op == "map-le" {
 				parts = append([]smt.Term{b}, parts...)
 			} else {
@@ -929,6 +919,20 @@ func (e *executor) loadFuncSpec(path string, extra map[string]vsVal, hook *hookC
 				return nil, env.errf(f, "case must be Bool")
 			}
 			fs.Cases = append(fs.Cases, NamedTerm{f.list[1].atom, e.tm.named("spec_case_"+f.list[1].atom, r.t), 0})
+		case "lemma":
+			if len(f.list) != 3 || f.list[1].isL {
+				return nil, env.errf(f, "(lemma NAME expr)")
+			}
+			nsides := len(env.sides)
+			r, err := env.eval(f.list[2])
+			env.sides = env.sides[:nsides]
+			if err != nil {
+				return nil, err
+			}
+			if r.w != 0 {
+				return nil, env.errf(f, "lemma must be Bool")
+			}
+			fs.Lemmas = append(fs.Lemmas, MathLemma{f.list[1].atom, e.tm.weakQuery([]weakCase{{goal: r.t}})})
 		case "math":
 			if len(f.list) != 3 || f.list[1].isL {
 				return nil, env.errf(f, "(math NAME expr)")
